@@ -508,6 +508,82 @@ impl Drop for TopicDropGuard {
     }
 }
 
+/// Verification hook (add-only, compiled only with `--cfg p2panda_p2panda_verif`): a `GossipHandle`
+/// over purely local channels, without any gossip overlay behind it.
+#[cfg(p2panda_p2panda_verif)]
+mod verif_local {
+    use p2panda_core::Topic;
+    use ractor::thread_local::{ThreadLocalActor, ThreadLocalActorSpawner};
+    use ractor::{ActorProcessingErr, ActorRef};
+    use tokio::sync::{broadcast, mpsc};
+
+    use super::{GossipHandle, TopicDropGuard};
+    use crate::gossip::actors::ToGossipManager;
+
+    /// Stand-in for the gossip manager: swallows every message (e.g. `Unsubscribe` on drop).
+    #[derive(Default)]
+    struct NullManager;
+
+    impl ThreadLocalActor for NullManager {
+        type State = ();
+        type Msg = ToGossipManager;
+        type Arguments = ();
+
+        async fn pre_start(
+            &self,
+            _myself: ActorRef<Self::Msg>,
+            _args: Self::Arguments,
+        ) -> Result<Self::State, ActorProcessingErr> {
+            Ok(())
+        }
+
+        async fn handle(
+            &self,
+            _myself: ActorRef<Self::Msg>,
+            _message: Self::Msg,
+            _state: &mut Self::State,
+        ) -> Result<(), ActorProcessingErr> {
+            Ok(())
+        }
+    }
+
+    impl GossipHandle {
+        /// Returns a handle whose published messages arrive at the returned `mpsc::Receiver` and
+        /// whose subscriptions receive whatever is sent into the returned `broadcast::Sender`
+        /// (channel created with `broadcast::channel(buffer)`).
+        pub async fn verif_local(
+            topic: Topic,
+            max_message_size: usize,
+            buffer: usize,
+        ) -> (Self, mpsc::Receiver<Vec<u8>>, broadcast::Sender<Vec<u8>>) {
+            // One stand-in actor per process: handles are created by the thousand.
+            static MANAGER: tokio::sync::OnceCell<ActorRef<ToGossipManager>> =
+                tokio::sync::OnceCell::const_new();
+            let actor_ref = MANAGER
+                .get_or_init(|| async {
+                    let (actor_ref, _) =
+                        NullManager::spawn(None, (), ThreadLocalActorSpawner::new())
+                            .await
+                            .expect("spawn null gossip manager");
+                    actor_ref
+                })
+                .await
+                .clone();
+            let (to_topic_tx, to_topic_rx) = mpsc::channel(1024);
+            let (from_gossip_tx, _) = broadcast::channel(buffer);
+            let guard = TopicDropGuard::new(topic, actor_ref);
+            let handle = GossipHandle::new(
+                topic,
+                max_message_size,
+                to_topic_tx,
+                from_gossip_tx.clone(),
+                guard,
+            );
+            (handle, to_topic_rx, from_gossip_tx)
+        }
+    }
+}
+
 #[cfg(test)]
 mod tests {
     use ractor::thread_local::{ThreadLocalActor, ThreadLocalActorSpawner};
